@@ -1,7 +1,7 @@
 (* Proofs/LineMarker.v — the line-marker scan sees every marker of a well-formed preprocessor output. *)
 From Coq Require Import List NArith Bool Arith Lia.
 From Sccache Require Import Base.Sx Gen.C04Consts Model.PpPaths Model.TimeMacro Model.PpCache Model.LineMarker
-     Proofs.TimeMacro.
+     Proofs.TimeMacro Proofs.PpCache.
 Import ListNotations.
 Local Open Scope N_scope.
 
@@ -99,6 +99,24 @@ Fixpoint fold_lines (ls : list line) (inc : incl) : option incl :=
       | None => None
       end
   end.
+
+(* a marker whose path does not resolve to the input file (however much it looks like it: "x.c" when the input is
+   sub/x.c) and names a regular file is recorded *)
+Theorem marker_recorded (p fl : bytes) (inc inc' : incl) (nd : node) :
+  marker_step p fl inc = Some inc' ->
+  is_angle (normalized_include_path p) = false ->
+  is_angle (resolve cwd (normalized_include_path p)) = false ->
+  (existsb (fun c => N.eqb c 51) fl && skip_system_headers cfg) = false ->
+  bytes_eqb (resolve cwd (normalized_include_path p)) input = false ->
+  fs_get fs (resolve cwd (normalized_include_path p)) = Some nd -> n_kind nd = KFile ->
+  inc_mem D (resolve cwd (normalized_include_path p)) inc' = true.
+Proof.
+  intros Hstep Ha Haq Hsys Hin Hg Hk. unfold marker_step in Hstep. cbv zeta in Hstep. rewrite Ha in Hstep.
+  pose proof (Proofs.PpCache.remember_one D H HT cfg fs start date input inc
+                (resolve cwd (normalized_include_path p)) (existsb (fun c => N.eqb c 51) fl)) as R.
+  rewrite Hstep in R. destruct R as [_ [Hmem _]].
+  apply (Hmem (conj Haq (conj Hsys Hin)) nd). split; assumption.
+Qed.
 
 Lemma scan_unfold fuel n prev rest out inc :
   scan (S fuel) n prev rest out inc =
